@@ -71,6 +71,8 @@ type Input struct {
 	TagKV   [][2]string   `json:"tagkv,omitempty"` // structured tags (used instead of Tags when present)
 	Slot    int           `json:"slot"`           // which 10 s window
 	UseCT   bool          `json:"use_ct"`         // select trie/tree by Content-Type instead of format=
+	Seq     []Meta        `json:"seq,omitempty"`     // successive uploads of the profile to one series, each with this metadata
+	CT      string        `json:"ct,omitempty"`      // Content-Type of the text-format and format=-selected requests ("" = text/plain)
 	Burst   *BurstIn      `json:"burst,omitempty"` // distinct jobs handed to one remote uploader with several upload threads
 	RawQuery []byte       `json:"rawq,omitempty"` // arbitrary raw query string for url.ParseQuery (raw class)
 	Raw     []byte        `json:"raw,omitempty"`  // arbitrary body for the two text parsers only
@@ -352,6 +354,35 @@ func gen(r *rand.Rand, idx int, tier string) Input {
 		in.Class = "raw"
 		in.Raw = randRaw(r)
 		in.RawQuery = randQuery(r)
+		if lib.Chance(r, 0.35) {
+			// a collapsed-text line whose length sits on a buffer boundary (4096-byte readers), followed by another line;
+			// the multiset the client means goes along
+			L := lib.Pick(r, []int{4095, 4096, 4097, 8191, 8192, 8193, 12288})
+			var stack []byte
+			for len(stack) < L-2 {
+				n := L - 2 - len(stack)
+				if n > 700 {
+					n = 700
+				}
+				if len(stack) > 0 {
+					stack = append(stack, ';')
+					n--
+				}
+				stack = append(stack, bytes.Repeat([]byte{byte('a' + len(stack)%3)}, n)...)
+			}
+			var b []byte
+			pre := lib.Chance(r, 0.5)
+			if pre {
+				b = append(b, "pre;x 1\n"...)
+				in.MS = append(in.MS, treeu.Stack{Key: []byte("pre;x"), V: 1})
+			}
+			b = append(append(b, stack...), " 7\n"...)
+			in.MS = append(in.MS, treeu.Stack{Key: stack, V: 7})
+			b = append(b, "after;y 2\nlast 3\n"...)
+			in.MS = append(in.MS, treeu.Stack{Key: []byte("after;y"), V: 2}, treeu.Stack{Key: []byte("last"), V: 3})
+			in.Raw = b
+			in.Class = "raw-longline"
+		}
 		return in
 	}
 	n := lib.Range(r, 1, 7)
@@ -507,6 +538,32 @@ func gen(r *rand.Rand, idx int, tier string) Input {
 		}
 	}
 	in.UseCT = lib.Chance(r, 0.3)
+	if lib.Chance(r, 0.4) { // what generic HTTP clients send (curl -d, forms, browsers)
+		in.CT = lib.Pick(r, []string{"application/x-www-form-urlencoded", "multipart/form-data; boundary=xyz", "application/octet-stream",
+			"text/plain; charset=utf-8", "application/json", "binary/octet-stream"})
+	}
+	if idx%10 == 2 && ok && in.Meta != nil {
+		// uploads to an existing series: each differs from the one before in exactly one metadata field
+		m := *in.Meta
+		in.Seq = append(in.Seq, m)
+		for i := lib.Range(r, 1, 3); i > 0; i-- {
+			switch r.Intn(5) {
+			case 0:
+				m.Spy = lib.Pick(r, spies)
+			case 1:
+				m.Rate = lib.Pick(r, rates)
+			case 2:
+				m.Units = lib.Pick(r, unitsL)
+			default: // sum <-> average
+				if m.Agg == "sum" {
+					m.Agg = "average"
+				} else {
+					m.Agg = "sum"
+				}
+			}
+			in.Seq = append(in.Seq, m)
+		}
+	}
 	if idx%12 == 5 {
 		b := &BurstIn{Threads: lib.Pick(r, []int{4, 4, 8})}
 		n := b.Threads * lib.Range(r, 2, 4)
@@ -752,7 +809,7 @@ func run(in Input) (res lib.Result) {
 		coq := "{| c_ms := " + lib.List(msItems) + "; c_text_ok := false; c_meta := None; c_groups := None; c_lines := None; c_trie := None; c_tree := None; " +
 			"c_job := None; c_job_ns := None; c_remote_slots := []; c_direct_slots := []; c_series := None; c_remote := None; c_direct := None; c_go_groups := None; c_go_lines := None; c_raw := " +
 			lib.Some("("+cbytes(in.Raw)+", "+parseGroupsGo(in.Raw)+", "+parseLinesGo(in.Raw)+")") +
-			"; c_burst := []; c_burst_got := []; c_names := []; c_stored_keys := []; c_remote_rawq := None; c_hostile_q := " + hostileQueryCoq(in.RawQuery) + "; c_raw_groups := " + rg + "; c_raw_lines := " + rl + " |}"
+			"; c_seq := []; c_burst := []; c_burst_got := []; c_names := []; c_stored_keys := []; c_remote_rawq := None; c_hostile_q := " + hostileQueryCoq(in.RawQuery) + "; c_raw_groups := " + rg + "; c_raw_lines := " + rl + " |}"
 		return lib.Result{Coq: coq, NonTrivial: false, Feat: map[string]interface{}{"class": "raw", "raw_len": len(in.Raw), "raw_with_intent": len(in.MS) > 0}}
 	}
 	e.counter++
@@ -833,6 +890,9 @@ func run(in Input) (res lib.Result) {
 		q.Set("from", strconv.FormatInt(st.Unix(), 10))
 		q.Set("until", strconv.FormatInt(et.Unix(), 10))
 		ct := "text/plain"
+		if in.CT != "" {
+			ct = in.CT
+		}
 		switch f {
 		case "lines":
 			q.Set("format", "lines")
@@ -939,6 +999,29 @@ func run(in Input) (res lib.Result) {
 		}
 	}
 
+	seqCoq := "[]"
+	if len(in.Seq) > 0 {
+		name := base + ".seq" + tags
+		namesSent = append(namesSent, coqRunes(name))
+		items := []string{}
+		for _, m := range in.Seq {
+			q := url.Values{}
+			q.Set("name", name)
+			q.Set("from", strconv.FormatInt(st.Unix(), 10))
+			q.Set("until", strconv.FormatInt(et.Unix(), 10))
+			q.Set("spyName", m.Spy)
+			q.Set("sampleRate", strconv.FormatUint(uint64(m.Rate), 10))
+			q.Set("units", m.Units)
+			q.Set("aggregationType", m.Agg)
+			req := httptest.NewRequest("POST", "/ingest?"+q.Encode(), bytes.NewReader(bodies["groups"]))
+			req.Header.Set("Content-Type", "text/plain")
+			rec := httptest.NewRecorder()
+			e.handler.ServeHTTP(rec, req)
+			items = append(items, lib.Pair("("+lib.Bytes([]byte(m.Spy))+", "+lib.N(uint64(m.Rate))+", "+lib.Bytes([]byte(m.Units))+", "+lib.Bytes([]byte(m.Agg))+")",
+				e.readBack(name, st, et, rec.Code)))
+		}
+		seqCoq = lib.List(items)
+	}
 	burstCoq, burstGot := "[]", "[]"
 	if in.Burst != nil && len(in.Burst.Jobs) > 0 {
 		var bn []string
@@ -968,7 +1051,7 @@ func run(in Input) (res lib.Result) {
 	coq := "{| c_ms := " + treeu.CoqStacks(in.MS) + "; c_text_ok := " + lib.Bool(textok) + "; c_meta := " + metaCoq +
 		"; c_groups := " + sentCoq["groups"] + "; c_lines := " + sentCoq["lines"] + "; c_trie := " + sentCoq["trie"] +
 		"; c_tree := " + sentCoq["tree"] + "; c_job := " + jobCoq + "; c_job_ns := " + jobNs + "; c_remote_slots := " + remoteSlots + "; c_direct_slots := " + directSlots + "; c_series := " + seriesCoq + "; c_remote := " + remoteCoq + "; c_direct := " + directCoq +
-		"; c_go_groups := " + goGroups + "; c_go_lines := " + goLines + "; c_raw := None; c_burst := " + burstCoq + "; c_burst_got := " + burstGot + "; c_names := " + lib.List(namesSent) + "; c_stored_keys := " + e.storedKeys(base) + "; c_remote_rawq := " + remoteRawq + "; c_hostile_q := None; c_raw_groups := None; c_raw_lines := None |}"
+		"; c_go_groups := " + goGroups + "; c_go_lines := " + goLines + "; c_raw := None; c_seq := " + seqCoq + "; c_burst := " + burstCoq + "; c_burst_got := " + burstGot + "; c_names := " + lib.List(namesSent) + "; c_stored_keys := " + e.storedKeys(base) + "; c_remote_rawq := " + remoteRawq + "; c_hostile_q := None; c_raw_groups := None; c_raw_lines := None |}"
 
 	// features: prefix structure
 	nonBoundary, prefixOf, repeats := false, false, false
@@ -1011,7 +1094,7 @@ func run(in Input) (res lib.Result) {
 		NonTrivial: nonBoundary || prefixOf,
 		Feat: map[string]interface{}{"class": in.Class, "formats": strings.Join(in.Formats, ","), "upload": strings.Join(in.Upload, ","),
 			"non_boundary_prefix": nonBoundary, "prefix_of_another": prefixOf, "repeats": repeats, "count_magnitude": mag,
-			"meta_omitted": in.Meta == nil, "stacks": len(in.MS), "by_content_type": in.UseCT, "burst_threads": burstThreads(in.Burst), "tags": len(in.TagKV), "tags_duplicate_or_padded": tagsIrregular(in.TagKV), "app_suffix": in.AppX, "job_start_9th_second_ge_500ms": in.JobStart >= 9500000000, "job_end_on_boundary": in.JobEnd == 10000000000 || in.JobEnd == 0},
+			"meta_omitted": in.Meta == nil, "stacks": len(in.MS), "by_content_type": in.UseCT, "burst_threads": burstThreads(in.Burst), "content_type": in.CT, "meta_sequence": len(in.Seq), "tags": len(in.TagKV), "tags_duplicate_or_padded": tagsIrregular(in.TagKV), "app_suffix": in.AppX, "job_start_9th_second_ge_500ms": in.JobStart >= 9500000000, "job_end_on_boundary": in.JobEnd == 10000000000 || in.JobEnd == 0},
 	}
 }
 
